@@ -87,6 +87,46 @@ def eof2qubit (c : α) : α :=
 /-- the argument of `np.sqrt` in `get_concurrence_pure` (`eof.py:56`), given the radicand `2*(1-tmp2)` -/
 def concPureSqrtArg (x : α) : α := if concPureClampSqrtArg then pyMax0 x else x
 
+/-- the read-out of `get_concurrence_2qubit` from the (ascending) eigenvalues returned by `eigvalsh` (`eof.py:32-33`):
+`EVL = sqrt(maximum(0, ev))`, `maximum(2*EVL[-1] - EVL.sum(), 0)` -/
+def woottersReadout (ev : List α) : α :=
+  let l := ev.map fun x => SqrtLog.sqrt (pyMax0 x)
+  pyMax0 (2 * l.getLastD 0 - l.foldl (· + ·) 0)
+
+/-- `get_eof_pure` from the eigenvalues of the reduced state (`eof.py:78-80`): `EVL = EVL[EVL>eps]; -dot(EVL, log(EVL))` -/
+def eofPureFromWeights (eps : α) (ev : List α) : α :=
+  -((ev.filter fun x => decide (eps < x)).foldl (fun acc x => acc + x * SqrtLog.log x) 0)
+
+/-! ### losses of the variational models, as functions of the reduced states of the ensemble members
+(`eof.py:163-171, 232-239`, `measure.py:116-124, 235-241`); the eigenvalues of each reduced state come from
+`torch.linalg.eigvalsh` (contract) -/
+
+/-- `torch.maximum(x, eps)` -/
+def clampBelow (eps x : α) : α := if eps < x then x else eps
+
+/-- `x * log(maximum(x, eps))` -/
+def clampXLogX (eps x : α) : α := x * SqrtLog.log (clampBelow eps x)
+
+/-- value contributed by one ensemble member to the EOF loss: `p log p − Σ_i λ_i log λ_i` (`p = tr`, `λ` the spectrum of its
+unnormalised reduced state) -/
+def eofMember (eps : α) (m : α × List α) : α := clampXLogX eps m.1 - m.2.foldl (fun acc e => acc + clampXLogX eps e) 0
+
+/-- `EntanglementFormationModel.forward`: `dot(prob, log prob) − dot(EVL, log EVL)`, grouped by member -/
+def eofLoss (eps : α) (members : List (α × List α)) : α := members.foldl (fun acc m => acc + eofMember eps m) 0
+
+/-- one member of the concurrence loss: `sqrt(maximum(eps, 2(p² − purity)))` -/
+def concMember (eps : α) (m : α × α) : α := SqrtLog.sqrt (clampBelow eps (2 * (m.1 * m.1 - m.2)))
+
+/-- `ConcurrenceModel.forward` -/
+def concLoss (eps : α) (members : List (α × α)) : α := members.foldl (fun acc m => acc + concMember eps m) 0
+
+/-- `DensityMatrixLinearEntropyModel.forward`: `sign·(1 − Σ purity/maximum(eps, p))` -/
+def linentLoss (eps sign : α) (members : List (α × α)) : α :=
+  sign * (1 - members.foldl (fun acc m => acc + m.2 / clampBelow eps m.1) 0)
+
+/-- `DensityMatrixGMEModel.forward`: `1 − vdot(ov, ov).real`, `ov` given as (re, im) pairs -/
+def gmeLoss (ov : List (α × α)) : α := 1 - ov.foldl (fun acc z => acc + (z.1 * z.1 + z.2 * z.2)) 0
+
 /-- `get_gme_2qubit` as a function of the concurrence -/
 def gme2qubit (c : α) : α := (1 - SqrtLog.sqrt (sqrtArg gmeClampSqrtArg c)) / 2
 
